@@ -236,6 +236,28 @@ def _fold_chunk(args):
     return _fold_tables(Analysis(repo), version, ws)
 
 
+# Tables the 3.10 assembler writes only for instructions whose line numbers are negative and DIFFERENT (an ast with rewritten line numbers: the
+# assembler opens a new range whenever the line changes and writes every negative line as 'no line'): two adjacent ranges without a line.
+RAW_LINETABLES = [
+    ("two adjacent ranges without a line (instructions with different negative line numbers)", bytes([14, 0x80, 2, 0x80]), 16),
+    ("a line, then two adjacent ranges without a line, then a line", bytes([4, 1, 6, 0x80, 2, 0x80, 4, 2]), 16),
+]
+
+
+def raw_tables_rule(an: Analysis, rep, rule="R10.F"):
+    """Only under C10, whose quantifier is every table the assembler can emit (C01 speaks of code compiled from a valid program's source)."""
+    from .c10 import find_stages
+    st = find_stages(an)
+    dec, enc = st["decode"], st["encode"]
+    bad_lines, bad_bytes, gap = _fold_tables(an, (3, 10), RAW_LINETABLES)
+    if gap:
+        raise AnalysisError(gap)
+    rep.add(rule, f"{dec.qual}::adjacent ranges without a line decode to CPython's lines [3.10]", not bad_lines, loc(dec.module, dec.node),
+            f"{len(RAW_LINETABLES)} tables" if not bad_lines else bad_lines[0])
+    rep.add(rule, f"{enc.qual}::adjacent ranges without a line are written back byte for byte [3.10]", not bad_bytes, loc(enc.module, enc.node),
+            f"{len(RAW_LINETABLES)} tables" if not bad_bytes else bad_bytes[0] + ": the mapping holds None for both ranges, the boundary between them has no place in it")
+
+
 def fold_rule(an: Analysis, rep, rule="R10.F"):
     from .c10 import find_stages
     rep.rule(rule, "the line-table codec folded over witness tables written by CPython's assemblers: every instruction gets CPython's line, and the table is written back byte for byte", 8)
